@@ -53,6 +53,9 @@ func Diff(impl []Tok, model Tok) (int, string, string) {
 			return i, impl[i].String(), "<missing>"
 		}
 		a, b := impl[i].String(), model.L[i].String()
+		if b == "(77)" { // model: outside the modelled domain (counted, not compared)
+			continue
+		}
 		if a != b {
 			return i, a, b
 		}
@@ -81,7 +84,8 @@ type Finding struct {
 	Step    int    `json:"step"`
 	Impl    string `json:"impl,omitempty"`
 	Model   string `json:"model,omitempty"`
-	Case    string `json:"case"` // shrunk case token (replayable)
+	Case    string `json:"case"` // shrunk case token as sent to the model
+	ImplOps string `json:"impl_ops"` // the ops as executed on the implementation (replayable)
 	OpsN    int    `json:"ops"`
 }
 
@@ -113,13 +117,11 @@ func (s *Stats) Record(machine int, r *RunResult, nontrivial bool, opName func(T
 	for i, op := range r.Ops {
 		s.OpKinds[opName(op)]++
 		o := r.Obs[i]
-		if o.Kind == 2 && len(o.L) == 2 && o.L[0].Kind == 0 {
-			switch o.L[0].U() {
-			case 1:
-				s.ObsErrors++
-			case 2:
-				s.ObsPanics++
-			}
+		switch outcomeKind(o) {
+		case 1:
+			s.ObsErrors++
+		case 2:
+			s.ObsPanics++
 		}
 	}
 	b := "ops<=" + bucket(len(r.Ops))
@@ -164,6 +166,7 @@ type Checker struct {
 	MaxFind  int
 	// SkipModel: ops for which model comparison is skipped (never used for claimed projections).
 	NoModel bool
+	SigPrefix string
 }
 
 func (c *Checker) mismatch(cs *Case) (int, string, string, *RunResult) {
@@ -233,12 +236,12 @@ func (c *Checker) Check(cs *Case, nontrivial func(*RunResult) bool) {
 		}
 		c.Findings = append(c.Findings, Finding{Kind: "correspondence", Sig: "corr/" + name,
 			Desc:    fmt.Sprintf("implementation and model disagree at step %d (%s)", j, name),
-			Machine: cs.Machine, Step: j, Impl: a2, Model: b2, Case: r2.CaseTok.String(), OpsN: len(r2.Ops)})
+			Machine: cs.Machine, Step: j, Impl: a2, Model: b2, Case: r2.CaseTok.String(), ImplOps: TL(sh...).String(), OpsN: len(r2.Ops)})
 	}
 	for _, v := range c.monitor(r) {
 		if c.Known != nil {
-			if _, ok := c.Known[v.Sig]; ok {
-				c.Known[v.Sig]++
+			if _, ok := c.Known[c.SigPrefix+v.Sig]; ok {
+				c.Known[c.SigPrefix+v.Sig]++
 				continue
 			}
 		}
@@ -270,7 +273,7 @@ func (c *Checker) Check(cs *Case, nontrivial func(*RunResult) bool) {
 			}
 		}
 		c.Findings = append(c.Findings, Finding{Kind: "monitor", Sig: sig, Desc: desc,
-			Machine: cs.Machine, Step: step, Case: rr.CaseTok.String(), OpsN: len(rr.Ops)})
+			Machine: cs.Machine, Step: step, Case: rr.CaseTok.String(), ImplOps: TL(sh...).String(), OpsN: len(rr.Ops)})
 	}
 }
 
